@@ -313,6 +313,7 @@ static void clear_routing_entry(struct value_route_table *val, const struct peer
 	if (request->requesting_peer != leaving_peer) {
 		send_shutdown_response(request->requesting_peer, request->origin_request_id);
 	}
+	cjet_timer_destroy(&request->timer);
 	cJSON_Delete(request->origin_request_id);
 	cjet_free(request);
 }
